@@ -155,10 +155,10 @@ class Database:
             index = self.tables.index(obj)
         except ValueError:
             raise DatabaseValidationError(f'{obj} is not in the database.')
-        self._unset_database(self.tables.pop(index))
-        result = self.table_dict.pop(obj.full_name)
-        if obj.alias:
-            self.table_dict.pop(obj.alias)
+        result = self.tables.pop(index)
+        self._unset_database(result)
+        for key in [k for k, v in self.table_dict.items() if v is result]:
+            del self.table_dict[key]
         return result
 
     def delete_reference(self, obj: Reference) -> Reference:
